@@ -272,6 +272,7 @@ def drive(tier):
 def run(tier):
     rep = Report("C18", tier)
     rep.add_mc("MC_P2P", vlib.run_mc("MC_P2P", cfg="MC_P2P" if tier == "quick" else "MC_P2P_thorough"))
+    rep.add_mc("MC_P2P_live", vlib.run_mc("MC_P2P", cfg="MC_P2P_live"))             # liveness proper: every stream is read to its end or to an error (WF)
     import replay_p2p
     replay_p2p.replay(rep, tier)            # specification -> code: TLC's behaviours performed on the implementation
     recs, nsecond, ndiff = vlib.second_pass(drive, tier)
